@@ -221,8 +221,9 @@ CHECKS = {
              "version cell), process_line_queue, Connection.connect, every "
              "_initialize_references override (every subset of undefined "
              "names), _substitute_virtual_line, the U/O same-identifier "
-             "merge, Multiline._merge / add and _set_existing_field on a "
-             "connected line.",
+             "merge (tag values 0 and '' included), Multiline._merge / add "
+             "and _set_existing_field on a connected line (the validation "
+             "levels of the line and of its Gfa are independent cells).",
         note="Undecided: failures that are not explicit library errors, "
              "observational equality on concrete graphs, entry points not "
              "listed (graph operations, group item editing)."),
@@ -234,7 +235,9 @@ CHECKS = {
         engine="TABLE+PAIR",
         design_ref="DESIGN.md section 4, C09",
         text="Partial. Decides: only connect (after _search_duplicate), the "
-             "placeholder substitution and the rename path insert into the "
+             "placeholder substitution (or another line method of the same "
+             "shape: unregister the line it was given, then register its "
+             "receiver) and the rename path insert into the "
              "registry, and the registry / fresh-name counter have no other "
              "writers; the rename path raises NotUniqueError before "
              "unregistering when the new identifier is carried by another "
@@ -264,8 +267,11 @@ CHECKS = {
              "neighbourhood/topology queries, group resolution, searches, all "
              "datatype codecs) the transitive may-write summary, computed to "
              "a fixpoint over all 731 functions, contains no write to tracked "
-             "state reachable from the receiver, an argument or a module-level "
-             "table, except five individually justified whitelisted effects "
+             "state reachable from the receiver, an argument, a module-level "
+             "table or a class-level container that no function edits under "
+             "its own name (a list hoisted into a class body is one object "
+             "for the whole process), except five individually justified "
+             "whitelisted effects "
              "(lazy decode, datatype cache, empty _refs, error flag, the "
              "sequence swap whose save/restore pairing is checked). A "
              "reachable store into receiver-reachable state is a modification "
@@ -278,8 +284,10 @@ CHECKS = {
              "Over-approximation: receivers the resolver cannot type are "
              "resolved by method name; operator overloads (+ on FieldArray) "
              "are not resolved; heap stores are effects, not points-to facts; "
-             "writes to attributes outside the tracked-state list (e.g. a new "
-             "cache attribute) are not reported. " + TRUSTED),
+             "writes to attributes that are neither in the tracked-state "
+             "list nor set by any constructor of the library (e.g. a cache "
+             "attribute created on first use) are not reported; the "
+             "progress logger of a Gfa is not document state. " + TRUSTED),
     "C11": dict(
         technique="decision-table extraction by abstract interpretation of the "
                   "syntax tree over the complete finite domain, compared with "
